@@ -299,6 +299,10 @@ class Server:
         self.cmdlog.append((self.loop._ns, client, label, "ok"))
         self.loop.post_io(_set_res, fut, res)
 
+    def busy(self) -> bool:
+        """Something is still on its way between client and server."""
+        return bool(self.pending)
+
     def drain(self) -> None:
         """Apply everything already sent (used at a crash point: the server finishes what it got)."""
         while self.pending:
